@@ -50,10 +50,7 @@ class FileBackups:
 
         If the file does not exist, this has no effect. (This may happen
         during builds that use multithreading.) If the specified
-        filename refers to a directory, this may remove the directory.
-        This is not normally desirable, but it might be an acceptable
-        cost as a way to deal with external modifications to the file
-        system.
+        filename refers to a directory, this has no effect either.
 
         Returns:
             bool: Whether the file existed and was a regular file.
@@ -76,14 +73,22 @@ class FileBackups:
         backup_filename = os.path.join(backup_dir, 'file_{:02x}'.format(value))
 
         os.makedirs(backup_dir, exist_ok=True)
+        # Create the backup file before moving "filename" onto it. Unlike moving
+        # "filename" to a new filename, this fails if it is a directory, e.g.
+        # one that another thread created since the caller checked. That way,
+        # we never move a directory and its contents out of the way.
+        with open(backup_filename, 'x'):
+            pass
         try:
-            os.rename(filename, backup_filename)
+            os.replace(filename, backup_filename)
         except FileNotFoundError:
+            os.remove(backup_filename)
             return False
-
-        if os.path.isdir(backup_filename):
-            # "filename" was a directory when we backed it up
-            return False
+        except OSError:
+            os.remove(backup_filename)
+            if os.path.isdir(filename):
+                return False
+            raise
 
         with self._lock:
             self._backups.append((filename, backup_filename))
